@@ -151,7 +151,14 @@ def drv_results(plan, seed, path):
     return run_api.run_results(plan, seed=seed, path=path)
 
 
-DRIVERS = {"results": drv_results, "random_hpc": drv_random_hpc, "scn": drv_scn, "model_replay": drv_model_replay,
+def drv_cluster(plan, seed, path, elog):
+    tr = run_api.run_cluster(plan, seed=seed, path=path)
+    if path is not None and not tr["conformance"]["diverged"]:
+        tr["conformance"]["diff"] = run_api.compare_cops(elog, tr)
+    return tr
+
+
+DRIVERS = {"cluster": drv_cluster, "results": drv_results, "random_hpc": drv_random_hpc, "scn": drv_scn, "model_replay": drv_model_replay,
            "batching_input": drv_batching_input, "dry_pair": drv_dry_pair, "first_round": drv_first_round}
 
 
@@ -504,8 +511,20 @@ def small_model(ctx, name, module, consts, invariants, defs="", view="View", dum
     ctx.models.append({"name": name, "module": module, "states": res["distinct"], "transitions": res["states"],
                        "wall_s": round(res["wall"], 1), "ok": ok, "mode": "exhaustive"})
     if not ok:
-        raise tlc.TlcError(f"model {name} did not pass:\n" + res["out"][-3000:])
+        raise tlc.TlcError(f"model {name} did not pass:\n" + res["out"][-6000:])
     return res
+
+
+def cex_path(tlc_out):
+    """The `path` history variable of the last state of a TLC counterexample, as a Python list."""
+    mm = re.findall(r"/\\ path = (<<.*?>>)\n(?:/\\|\n|$)", tlc_out, re.S)
+    if not mm:
+        return None
+    txt = re.sub(r"\s+", " ", mm[-1]).replace("<<", "[").replace(">>", "]")
+    try:
+        return json.loads(txt)
+    except ValueError:
+        return None
 
 
 def note_conformance(ctx, traces, key="conformance"):
@@ -555,7 +574,47 @@ def check_C08(ctx):
                            "events of whole submissions")
 
 
-CHECKS = {"C01": check_C01, "C07": check_C07, "C08": check_C08}
+FIXED = {"F1", "F9"}      # findings repaired in the current tree (the models follow the code)
+
+
+def check_C10(ctx):
+    q = ctx.tier == "quick"
+    plans = run_api.cluster_scripts()
+    rng = random.Random(ctx.seed)
+    tasks = []
+    for plan in plans:
+        try:
+            res = small_model(ctx, f"ClusterStore {plan['id']}", "ClusterStore",
+                              {"Scripts": plan["scripts"], "Scn": scenario.tla_scn(run_api.cluster_scn(), plan["id"]), "Log": True,
+                               "FixedF9": "F9" in FIXED},
+                              ["P_C10", "N_OneRole", "N_RoleMatchesDisk", "N_VersionFilesAgree"])
+        except tlc.TlcError as e:
+            # a counterexample of the model is first replayed on the real code: only a real trace can be a violation
+            cp = cex_path(str(e))
+            if cp is None:
+                raise
+            ctx.models[-1]["counterexample_replayed"] = cp
+            tasks.append(("cluster", (plan, 0, cp, None)))
+            tasks += [("cluster", (plan, s, None, None)) for s in seeds(ctx, 60, hash(plan["id"]) % 89)]
+            continue
+        behs = replay_model.parse_behaviours(res["out"])
+        behs.sort(key=lambda b: json.dumps(b["path"]))
+        if len(behs) > (120 if q else 2000):
+            behs = rng.sample(behs, 120 if q else 2000)
+        tasks += [("cluster", (plan, 0, b["path"], b.get("elog", []))) for b in behs]
+        tasks += [("cluster", (plan, s, None, None)) for s in seeds(ctx, 60 if q else 1000, hash(plan["id"]) % 89)]
+    traces = run_tasks(tasks)
+    note_conformance(ctx, traces)
+    ctx.judge(traces, "real Cluster API: handles running operation scripts under model and random schedules", ignore_other=True)
+    kw = dict(n_min=2, n_max=6, groups_max=1)
+    ctx.judge(run_tasks([("random_hpc", (s, kw)) for s in seeds(ctx, 200 if q else 3000, 6)]), "random HPC submissions")
+    return ctx.finish(rule="ClusterStore.tla: all interleavings of load/promote/demote/update/job-status-only/cancel operations of "
+                           "2-3 handles on 2 hosts (each one cluster-lock hold), incl. handles loaded before others changed the "
+                           "state; the model's behaviours and random schedules executed on the real Cluster class; plus promote/"
+                           "status events of whole submissions")
+
+
+CHECKS = {"C01": check_C01, "C07": check_C07, "C08": check_C08, "C10": check_C10}
 for _i, _p in enumerate(["C02", "C03", "C04", "C05", "C09"]):
     CHECKS[_p] = make_protocol_check(10 + _i)
 # C06 also under failing scheduler queries: the limit is stated for every instant, not only for fault-free runs
